@@ -16,9 +16,12 @@ Definition typed_only_sanitizers : list bytes :=
 Definition url_class_sanitizers : list bytes :=
   [ B "_sanitizeURL"; B "_sanitizeTrustedResourceURLOrURL"; B "_sanitizeTrustedResourceURL" ].
 
-(* regenerated context table: a context is a URL class exactly when its sanitizer is one of the three *)
+(* regenerated context table: a context is a URL class exactly when its sanitizer is one of the three;
+   only the context named TrustedResourceURL uses the typed-only URL sanitizer *)
 Definition c02_url_sanitizers : bool :=
-  forallb (fun x => let '(_, (_, san, _, url)) := x in Bool.eqb url (cc_mem san url_class_sanitizers)) P_contexts.
+  forallb (fun x => let '(k, (_, san, _, url)) := x in
+                    Bool.eqb url (cc_mem san url_class_sanitizers) &&
+                    implb (bytes_eqb san (B "_sanitizeTrustedResourceURL")) (k =? SC_TRU)) P_contexts.
 
 (* reviewed tables: no attribute key starts with the two letters of an event handler name *)
 Definition r_attr_keys : list bytes := map (fun x => fst (fst x)) R_elementSpecific ++ map fst R_globalAttr.
@@ -47,18 +50,24 @@ Definition opt_is (o : option bytes) (n : bytes) : bool :=
   match o with Some x => bytes_eqb x n | None => true end.
 
 (* reviewed tables: what the property names is refused or demands the matching safe type *)
-Definition c02_code_tables : bool :=
+Definition c02_content_tables : bool :=
   opt_is (reviewed_content (B "script")) (B "Script") && opt_is (reviewed_content (B "style")) (B "StyleSheet")
-  && forallb (fun n => bytes_eqb n (B "Style")) (r_attr_classes (B "style"))
-  && forallb (fun n => bytes_eqb n (B "HTMLValOnly")) (r_attr_classes (B "srcdoc"))
-  && negb (go_match_bytes R_dataAttributeName (B "style")) && negb (go_match_bytes R_dataAttributeName (B "srcdoc"))
-  && forallb (fun p => opt_is (reviewed_attr (fst p) (snd p) []) N_TRU) code_loading_pairs
   && bytes_eqb (r_sanitizer (B "Script")) (B "_sanitizeScript")
-  && bytes_eqb (r_sanitizer (B "StyleSheet")) (B "_sanitizeStyleSheet")
-  && bytes_eqb (r_sanitizer (B "Style")) (B "_sanitizeStyle")
-  && bytes_eqb (r_sanitizer (B "HTMLValOnly")) (B "_sanitizeHTMLValOnly")
-  && bytes_eqb (r_sanitizer N_TRU) (B "_sanitizeTrustedResourceURL")
-  && negb (r_is_url (B "Style")) && negb (r_is_url (B "HTMLValOnly")) && r_is_url N_TRU.
+  && bytes_eqb (r_sanitizer (B "StyleSheet")) (B "_sanitizeStyleSheet").
+
+Definition c02_style_tables : bool :=
+  forallb (fun n => bytes_eqb n (B "Style")) (r_attr_classes (B "style"))
+  && negb (go_match_bytes R_dataAttributeName (B "style"))
+  && bytes_eqb (r_sanitizer (B "Style")) (B "_sanitizeStyle") && negb (r_is_url (B "Style")).
+
+Definition c02_srcdoc_tables : bool :=
+  forallb (fun n => bytes_eqb n (B "HTMLValOnly")) (r_attr_classes (B "srcdoc"))
+  && negb (go_match_bytes R_dataAttributeName (B "srcdoc"))
+  && bytes_eqb (r_sanitizer (B "HTMLValOnly")) (B "_sanitizeHTMLValOnly") && negb (r_is_url (B "HTMLValOnly")).
+
+Definition c02_loading_tables : bool :=
+  forallb (fun p => opt_is (reviewed_attr (fst p) (snd p) []) N_TRU) code_loading_pairs
+  && bytes_eqb (r_sanitizer N_TRU) (B "_sanitizeTrustedResourceURL") && r_is_url N_TRU.
 
 (* the rel value carries no token of the reviewed allow-list (negation of the classifier of D3,
    widened to: no allow-listed token at all) *)
